@@ -17,6 +17,7 @@ task <id> q=<q> hook=<h> type=<n> af=<0|1> bt=<n> grp=<g> eos=<0|1> ctxs=<b:t:g;
 begin q=<q>                             → idle | noexec task=<id> | norun task=<id> queue=… | exec task=<id> hook=<h> ctxs=… queue=…
 end q=<q> ok=<0|1>                      → status=<success|fail> fc=<n> sleep=<ns> queue=<ids>
 oracle begin q=<q> task=<id> gap=<ns>   → retry of a failed task: same task, gap ≥ its back-off ≥ initial
+oracle nocombine q=<q> ctxs=… queue=<ids>  → (C07.6) ungrouped Synchronization head: own contexts, queue untouched
 oracle end q=<q> ok=… task=<id> ctxs=… sleep=<ns> after=<id>,<af>,<ctxs>|…   → the property clauses
 ```
 -/
@@ -60,6 +61,9 @@ def parseCtxs (s : String) : Option (List Ctx) :=
 
 def showCtxs (l : List Ctx) : String :=
   if l.isEmpty then "-" else String.intercalate ";" (l.map fun c => s!"{c.binding}:{c.typ}:{c.group}")
+
+/-- The hook's view of contexts: a grouped context has `type: Group` (2) whatever it was. -/
+def hookView (l : List Ctx) : List Ctx := l.map fun c => if c.group != 0 then { c with typ := 2 } else c
 
 def showIds (l : List Task) : String := showNats (l.map (·.id))
 
@@ -129,7 +133,7 @@ def oracleEnd (s0 : Retry.State) (initial : Nat) (ok : Bool) (task : Nat) (ctxs 
         match after with
         | h :: _ =>
           if h.id != t.id then "false failed-task-not-kept-at-head"
-          else if h.ctxs != ctxs then s!"false retried-contexts-differ want={showCtxs ctxs}"
+          else if hookView h.ctxs != ctxs then s!"false retried-contexts-differ want={showCtxs ctxs}"
           else if sleep < initial then "false backoff-shorter-than-initial"
           else "true"
         | [] => "false failed-task-not-kept-at-head"
@@ -172,7 +176,8 @@ def step (st : St) (toks : List String) : St × String :=
           if atHead then { q with s := { q.s with items := t :: q.s.items } }
           else { q with s := Retry.step st.cfg q.s (.append t) }
       let st' := st.setQ t.queue q'
-      (st', s!"af={b01 t.allowFailure} grp={t.group} queue={showIds (curItems st.cfg q')}")
+      if atHead then (st', s!"af={b01 t.allowFailure} grp={t.group} eos={b01 t.execOnSync} head")
+      else (st', s!"af={b01 t.allowFailure} grp={t.group} ctxs={showCtxs t.ctxs} queue={showIds (curItems st.cfg q')}")
   | "begin" :: rest =>
     match natKv "q" rest 0 with
     | none => (st, "bad-op")
@@ -188,7 +193,7 @@ def step (st : St) (toks : List String) : St × String :=
           let h := taskHandleHookRun st.cfg q.s.items t true
           match h.ran with
           | none => (st', s!"norun task={t.id} queue={showIds h.items}")
-          | some cs => (st', s!"exec task={t.id} hook={t.hook} ctxs={showCtxs cs} queue={showIds h.items}")
+          | some cs => (st', s!"exec task={t.id} hook={t.hook} ctxs={showCtxs (hookView cs)} queue={showIds h.items}")
   | "end" :: rest =>
     match natKv "q" rest 0, bool? ((kv? "ok" rest).getD "1") with
     | some qn, some ok =>
@@ -222,6 +227,22 @@ def step (st : St) (toks : List String) : St × String :=
         else if bo < st.boInit then (st, "false backoff-shorter-than-initial")
         else if gap < bo then (st, s!"false retried-before-backoff-elapsed backoff={bo}")
         else (st, "true")
+    | _, _, _ => (st, "bad-op")
+  | "oracle" :: "nocombine" :: rest =>
+    -- C07.6 on the real operator, asked after `begin`: an ungrouped kubernetes Synchronization head
+    -- task is executed with its own contexts only and nothing leaves the queue
+    match natKv "q" rest 0, parseCtxs ((kv? "ctxs" rest).getD "-"), natList? ((kv? "queue" rest).getD "-") with
+    | some qn, some ctxs, some ids =>
+      match (st.q qn).running with
+      | some (s0, _) =>
+        match s0.items with
+        | t :: _ =>
+          if !(t.btype == 2 && t.group == 0 && t.isSync) then (st, "bad-op not-an-ungrouped-synchronization")
+          else if ctxs != hookView t.ctxs then (st, s!"false foreign-contexts want={showCtxs (hookView t.ctxs)}")
+          else if ids != s0.items.map (·.id) then (st, s!"false tasks-left-the-queue want={showIds s0.items}")
+          else (st, "true")
+        | [] => (st, "bad-op nothing-to-run")
+      | none => (st, "bad-op not-running")
     | _, _, _ => (st, "bad-op")
   | "oracle" :: "end" :: rest =>
     match natKv "q" rest 0, bool? ((kv? "ok" rest).getD "1"), natKv "task" rest 0,
